@@ -11,7 +11,7 @@ const SPEC: Spec = Spec {
         "result equality across std / no_std follows from uniqueness of the floor root: both configurations are checked against the same oracle",
         "refint multiplication is trusted; the root oracle is cross-checked against a Python bisection root on a transcript slice",
     ],
-    bounds_quick: "R1 x < 2^14 and |x - 2^64| <= 256 x 15 degrees; R2 r^n, r^n+-1 for 11 bases x 12 degrees while r^n < 2^6000, each with every degree of the list + 1000 + u32::MAX; R3 2^k, 2^k+-1 for every k in 60..=2300 x degrees {2,3,4,5,7,11}; R4 negatives / panics; R6 b^n and b^n-1 for b in {3,2047,65537} x n in {1100,1500,3001} (Newton descents of the order of n steps)",
+    bounds_quick: "R1 x < 2^14 and |x - 2^64| <= 256 x 15 degrees; R2 r^n, r^n+-1 for 11 bases x 12 degrees while r^n < 2^6000, each with every degree of the list + 1000 + u32::MAX; R3 2^k, 2^k+-1 for every k in 60..=2300 x degrees {2,3,4,5,7,11}; R4 negatives / panics; R6 b^n and b^n-1 for b in {3,2047,65537} x n in {1100,1500,3001} (Newton descents of the order of n steps); R7 Dense(S16,2) + 30 three-digit values x 12 degrees (half-digit alphabet)",
     bounds_thorough: "R1 x < 2^17 and |x - 2^64| <= 4096; R2 while r^n < 2^12000; R3 every k in 60..=5000; R4; R6 6 bases x 8 degrees up to 6000",
     hang_secs: 120,
     probes: Some(probes),
@@ -206,6 +206,26 @@ fn body(ctx: &mut Ctx) {
                 ctx.sample(|| "dense LCG values of 17 digits x degrees {2,3,4,5,7,16,64,100}".to_string());
             }
         }
+    }
+    // R7: half-digit value structure: Dense(S16,2) and three-digit extensions x degrees
+    if ctx.space("R7") {
+        let mut xs: Vec<Vec<u64>> = alpha::dense(&alpha::SIGMA16, 2);
+        for &t in &alpha::SIGMA16 {
+            if t != 0 {
+                xs.push(vec![alpha::M, 0, t]);
+                xs.push(vec![0, alpha::M, t]);
+            }
+        }
+        for (i, d) in xs.iter().enumerate() {
+            if !ctx.mine(i as u64) {
+                continue;
+            }
+            let x = Nat::from_digits(d);
+            for n in [2u32, 3, 4, 5, 7, 8, 31, 32, 33, 63, 64, 65] {
+                root_case(ctx, &x, n);
+            }
+        }
+        ctx.sample(|| "Dense(S16,2) (16-letter half-digit alphabet) and 30 three-digit values x degrees {2,3,4,5,7,8,31,32,33,63,64,65}".to_string());
     }
     // R6: large degrees with multi-bit roots: the Newton iteration needs on the order of n steps there
     if ctx.space("R6") {
